@@ -121,7 +121,8 @@ def getExecutor (h : Heap) (r : Nat) (override : Option Nat) : Except Err Nat :=
 /-! ### operations -/
 
 inductive Op where
-  | dataset (itemType : String)
+  /-- a dataset object; `args`: extra arguments a subclass puts on its root `EventDataset(...)` node -/
+  | dataset (itemType : String) (args : List Expr)
   /-- Select / Where / SelectMany / MetaData: `clone_with_new_ast(function_call(op, [self.ast] ++ args), ty)` -/
   | derive (s : Nat) (op : String) (args : List Expr) (newType : String)
   /-- As* terminals: a brand-new `ObjectStream[ReturnedDataPlaceHolder]` around
@@ -144,10 +145,10 @@ def qmdToAdd (h : Heap) (root : Nat) : QMd → QMd → QMd
     | some found => if pyValNe found v then qmdToAdd h root (qmdSet k v acc) rest else qmdToAdd h root acc rest
 
 def step (st : St) : Op → St
-  | .dataset ty =>
+  | .dataset ty args =>
     let id := st.heap.length
-    { st with heap := st.heap ++ [{ op := "EventDataset", src := Option.none, args := [], exe := some id, qmd := Option.none }],
-              streams := st.streams ++ [{ root := id, itemType := ty, path := [], ds := id, tm := fcall "EventDataset" [] }] }
+    { st with heap := st.heap ++ [{ op := "EventDataset", src := Option.none, args := args, exe := some id, qmd := Option.none }],
+              streams := st.streams ++ [{ root := id, itemType := ty, path := [], ds := id, tm := fcall "EventDataset" args }] }
   | .derive s op args ty =>
     match st.streams[s]? with
     | Option.none => st
